@@ -244,12 +244,32 @@ fn constraint_case(ctx: &mut Ctx, idx: u64) {
     let mut rng = ctx.case_rng(idx);
     let (g, v) = pick_case(&mut rng, idx);
     let ff = v.canonical && rng.chance(1, 2);
-    let Ok(f) = factory(&v, &FactoryOpts { ff_tokens: ff, ..Default::default() }) else { return };
+    // one case in four runs under tight per-step limits: a mask or commit that runs out of budget must surface as an
+    // error (and stay one), never as an ordinary stop on incomplete text
+    let tight = (idx / 4) % 3 == 2;
+    let limits = if tight {
+        let mut l = limits_default();
+        match rng.below(3) {
+            0 => l.step_max_items = 3 + rng.below(120),
+            1 => l.step_lexer_fuel = 20 + rng.below(3000) as u64,
+            _ => {
+                l.step_max_items = 10 + rng.below(400);
+                l.step_lexer_fuel = 200 + rng.below(20000) as u64;
+            }
+        }
+        Some(l)
+    } else {
+        None
+    };
+    let Ok(f) = factory(&v, &FactoryOpts { ff_tokens: ff, limits, ..Default::default() }) else { return };
     let v1 = vocab::v1(false);
     let Ok(f1) = factory_noslice(&v1) else { return };
     let Ok(p) = parser(&f, &g) else { return };
     let mut c = Constraint::new(p);
     ctx.rep.inc("constraint_cases");
+    if tight {
+        ctx.rep.inc("tight_limit_cases");
+    }
     let tags = g.tags.clone();
     let mut hist: Vec<u32> = vec![];
     let mut ops: Vec<String> = vec![];
@@ -284,6 +304,21 @@ fn constraint_case(ctx: &mut Ctx, idx: u64) {
                 // an error here must be sticky
                 if c.compute_mask().is_ok() {
                     viol!("error_not_sticky", json!({}));
+                }
+                if tight {
+                    ctx.rep.inc("tight_limit_errors_reported");
+                    // a failed engine keeps reporting its failure: no commit is taken, no stop is announced
+                    // (a commit without a preceding mask that merely repeats the previous result and takes nothing is the
+                    // tolerated out-of-order call of the block above; taking a token or announcing a stop is not)
+                    let n0 = c.parser.num_tokens();
+                    if let Ok(cr) = c.commit_token(Some(rng.below(v.n()) as u32)) {
+                        if c.parser.num_tokens() != n0 || cr.stop || c.step_result().is_stop() {
+                            viol!("failed_engine_answered_after_resource_error", json!({"commit": format!("{cr:?}"), "tight_limits": true, "tokens_before": n0, "tokens_after": c.parser.num_tokens()}));
+                        }
+                    }
+                    if c.compute_mask().is_ok() {
+                        viol!("error_not_sticky", json!({"after": "commit attempt"}));
+                    }
                 }
                 break;
             }
@@ -335,7 +370,11 @@ fn constraint_case(ctx: &mut Ctx, idx: u64) {
             Ok(cr) => cr,
             Err(_) => {
                 if crate::tp::accepted_with_relaxed_limits(&v, None, &g, &hist, t) {
-                    ctx.rep.inconclusive("resource_stop");
+                    if tight {
+                        ctx.rep.inc("tight_limit_errors_reported");
+                    } else {
+                        ctx.rep.inconclusive("resource_stop");
+                    }
                     return;
                 }
                 viol!("masked_token_rejected", json!({"token": t}))
